@@ -323,6 +323,8 @@ def cmd_check(prop, tier):
     seed = int(os.environ.get("VERIF_SEED", "0") or 0)
     mod = prop_module(prop)
     runs, wall = budget(mod, tier)
+    if os.environ.get("BNPSIM_RUNS"):
+        runs = int(os.environ["BNPSIM_RUNS"])
     nproc = int(os.environ.get("BNPSIM_WORKERS", "0") or 0) or min(16, os.cpu_count() or 1)
     os.makedirs(os.path.join(OUT, "tmp"), exist_ok=True)
     exit_code = 0
@@ -360,6 +362,11 @@ def cmd_check(prop, tier):
 
     # 2. seeded search
     hashseeds = getattr(mod, "HASHSEEDS", None)
+    if hashseeds:
+        # PYTHONHASHSEED is a sampled configuration: run index i always executes under hashseeds[i % len]; workers are
+        # interpreters with a fixed hash seed, so their number is kept a multiple of len (independent of BNPSIM_WORKERS)
+        m = len(hashseeds(seed))
+        nproc = max(m, nproc - nproc % m)
     procs = []
     for w in range(nproc):
         outfile = os.path.join(OUT, "tmp", f"{prop}-{tier}-{seed}-{w}.jsonl")
@@ -425,8 +432,12 @@ def cmd_check(prop, tier):
 
     # 4. evidence
     ev = build_evidence(mod, prop, tier, seed, aggs, n_viol, kf_report, time.time() - t0, nproc, errors)
-    os.makedirs(os.path.join(VERIF, "evidence"), exist_ok=True)
-    with open(os.path.join(VERIF, "evidence", f"{prop}.json"), "w") as f:
+    # evidence belongs to /repo itself; runs against another tree (BNPSIM_REPO=<scratch copy>, used for sensitivity
+    # tests) must not overwrite it
+    evdir = os.path.join(VERIF, "evidence") if os.path.abspath(core.REPO) == "/repo" else \
+        os.path.join(OUT, "evidence-" + os.path.basename(os.path.abspath(core.REPO)))
+    os.makedirs(evdir, exist_ok=True)
+    with open(os.path.join(evdir, f"{prop}.json"), "w") as f:
         json.dump(ev, f, indent=1, default=repr)
     for line in lines:
         print(line)
@@ -483,10 +494,29 @@ def build_evidence(mod, prop, tier, seed, aggs, n_viol, kf_report, wall, nproc, 
             "wall_s": round(wall, 2), "violations": n_viol}
 
 
+def cmd_digests(prop, tier, seed, n):
+    """determinism self-test helper: digests of runs 0..n-1, each executed twice in-process"""
+    mod = prop_module(prop)
+    out = []
+    for i in range(n):
+        ds = []
+        for _ in range(2):
+            o = execute(mod, tier, Tape(rng=rng_for(seed, prop, i)), excl=(i % 10 != 0))
+            ds.append(core.digest([o.status, o.ctx.transcript, sorted(o.ctx.states), o.klass, o.ctx.evals, o.ctx.steps]))
+        if ds[0] != ds[1]:
+            print(json.dumps({"error": f"run {i} differs between two in-process executions"}))
+            return 1
+        out.append(ds[0])
+    print(json.dumps({"digests": out}))
+    return 0
+
+
 def main(argv):
     if len(argv) < 2:
         print(__doc__)
         return 2
+    if argv[1] == "digests":
+        return cmd_digests(argv[2], argv[3], int(argv[4]), int(argv[5]))
     if argv[1] == "check":
         return cmd_check(argv[2], argv[3] if len(argv) > 3 else "quick")
     if argv[1] == "worker":
